@@ -155,6 +155,19 @@ PROPS = {
         level_note='partial: expression / identifier / poetic-literal / function parsers, Display for ParseError(Location) and the '
                    'lexer line counter across match_loop are not under contract (DESIGN.md §5 C13)',
     ),
+    'C10': dict(
+        title='Same program and input give the same output, result and messages every time',
+        verus=['val_arrays', 'val_mut', 'sym_table', 'linter'], kani=[],
+        technique=V + ' — PARTIAL (the per-function ingredients): every function that walks the HashMap part of an array returns a '
+                      'function of the array CONTENT: Array::val_iter = numeric part in order, then the dictionary values in KEY order '
+                      '(`HashMap::values()` is specified as "no order promised", so the contract fails on it), Val::join is a function of '
+                      'that sequence (result and the element named in its error), Array::is_empty / len do not depend on order; the symbol '
+                      'tables are only ever addressed by key (the abstract map type has no iteration); lint diagnostics are sorted by line '
+                      'with the STABLE sort (read off the method name). The property itself relates two executions (different hash seeds, '
+                      'processes): that is not stated by any contract and not decided',
+        level_note='partial: Display for Array / Val (sorts formatted entries: fmt code), error rendering, the linter passes\' own '
+                   'iteration and process-level effects are not under contract (DESIGN.md §10.5)',
+    ),
     'C15': dict(
         title='Renaming variables and re-casing names or keywords never changes behaviour',
         verus=['sym_table', 'env', 'parser_names'], kani=[],
@@ -179,9 +192,6 @@ PROPS = {
 }
 
 NOT_APPLICABLE = {
-    'C10': 'relational property over two executions / processes (hash-seed dependent iteration order): no function '
-           'contract within reach of Verus or Kani can state or decide it; the one relevant site (join over '
-           'dict.values()) is outside both tools\' subset (iterator adapters + fmt; pointer-carrying Val in CBMC)',
     'C20': 'process-level behaviour (argv, files, stdout/stderr, exit status, clap): neither verifier models a process '
            'boundary; cli/ is glue over print!/eprintln!',
 }
